@@ -1,7 +1,7 @@
 (* C12 -- outgoing bytes are delivered exactly once, in order, however they are drained. *)
 From Coq Require Import ZArith List.
 From Coq.Strings Require Import Byte.
-From SV Require Import Base.Bytes Msg.Types Msg.Encode Sess.Model Sess.Drain.
+From SV Require Import Gen.Sharing Base.Bytes Msg.Types Msg.Encode Sess.Model Sess.Drain.
 Import ListNotations.
 
 (* for every history of calls (sends, deliveries, drains of any amount incl. negative / None):
@@ -29,7 +29,15 @@ Proof. exact py_cut_app. Qed.
 Example C12_negative_amount : py_cut (Some (-1)%Z) [x01; x02; x03] = ([x01; x02], [x03]).
 Proof. reflexivity. Qed.
 
+(* The theorems above are about functions and values; that _session.py (everything a session mutates is reached from the session object) keeps no state
+   between calls and shares none between objects is read off the source by tools/audit.py on every run
+   (Gen/Sharing.v): no memoisation, no module- or class-level container that is written, no mutable default, no
+   attribute written behind a dataclass, no parameter stored without a copy. *)
+Theorem C12_audit_no_state_between_calls : (hidden_state_session = [])%list.
+Proof. exact eq_refl. Qed.
+
 Print Assumptions C12_exactly_once_in_order.
 Print Assumptions C12_from_any_state.
 Print Assumptions C12_drain_is_pure_cut.
 Print Assumptions C12_cut_loses_nothing.
+Print Assumptions C12_audit_no_state_between_calls.
